@@ -150,6 +150,12 @@ DIALECTS = {
 }
 
 
+def staged_genf():
+    gen = ref.RefGen()
+    gen.union_mode = "staged"
+    return gen
+
+
 def class_source(texpr, dialect="default", fields="xy"):
     d = DIALECTS[dialect]
     src = [PRELUDE, "@dataclass", "class C(DataClassDictMixin):"]
@@ -195,7 +201,7 @@ def _genf(dialect):
     return lambda: ref.RefGen(native=d["native"], no_copy=d["no_copy"])
 
 
-def make_dec_view(cls, dialect, hooks=None):
+def make_dec_view(cls, dialect, hooks=None, staged=False):
     """view factory for g1.verify_from_dict: conv_f = REF_DEC(annotation)"""
     import typing_extensions
 
@@ -213,6 +219,10 @@ def make_dec_view(cls, dialect, hooks=None):
             if ref.is_optional(st_):
                 rest = [a for a in typing.get_args(st_) if a is not type(None)]
                 inner = rest[0] if len(rest) == 1 else st_
+                if staged and len(rest) > 1 and fv.default is not None:
+                    # regression contract of the unchanged tree: a union with a null member and two
+                    # or more other members is not unwrapped at field level
+                    fv.nullable = False
             src = gen.dec(inner, "x")
             table = _ref_env(gen)
             sx = pysym.Executor(eng, gen.ns, hooks=hooks or {})
@@ -258,7 +268,7 @@ def make_enc_view(cls, dialect):
             table = _ref_env(gen)
             sx = pysym.Executor(eng, gen.ns, hooks=ex.hooks)
             sx.inline = table
-            sx.assume_hasattr = True
+            sx.assume_hasattr = ex.assume_hasattr
             sx.nonraising = ex.nonraising
             sx.nonraising_prefixes = ex.nonraising_prefixes
             tree = ast.parse(src, mode="eval").body
